@@ -4,7 +4,7 @@
 #![allow(unused_imports, static_mut_refs, clippy::all)]
 use super::verif_support::*;
 use super::*;
-use crate::transport::ghost;
+use crate::transport::{ghost, FuseBuf, Reader};
 
 type Call = fn(&Srv, Ctx<'_>) -> crate::Result<usize>;
 
@@ -253,7 +253,6 @@ macro_rules! nfamily {
             h!(c01, $f::<{ $s + 4 }, { 16 + $r + 8 }>(1, true, false, 0, $op, $s, $meth, $r, $call, $args, $reply));
             h!(c02, $f::<{ $s + 4 }, { 16 + $r + 8 }>(2, true, false, 0, $op, $s, $meth, $r, $call, $args, $reply));
             h!(c02_l8, $f::<{ $s + 8 }, { 16 + $r + 8 }>(2, true, false, 0, $op, $s, $meth, $r, $call, $args, $reply));
-            h!(c01_lenlow, $f::<{ $s + 4 }, { 16 + $r + 8 }>(1, true, false, 1, $op, $s, $meth, $r, $call, $args, $reply));
             h!(c01_lenhigh, $f::<{ $s + 4 }, { 16 + $r + 8 }>(1, true, false, 2, $op, $s, $meth, $r, $call, $args, $reply));
             h!(c01_noname, $f::<{ $s + 4 }, { 16 + $r + 8 }>(1, true, false, 3, $op, $s, $meth, $r, $call, $args, $reply));
             h!(c01_badname_tiny, $f::<{ $s + 4 }, 15>(1, true, false, 0, $op, $s, $meth, $r, $call, $args, $reply));
@@ -380,7 +379,6 @@ pub mod getxattr_h {
     h!(c01, getxattr::<4, 40, 3>(1, true, false, 0, false));
     h!(c02, getxattr::<4, 40, 3>(2, true, false, 0, false));
     h!(c02_l8, getxattr::<8, 40, 3>(2, true, false, 0, false));
-    h!(c01_lenlow, getxattr::<4, 40, 3>(1, true, false, 1, false));
     h!(c01_lenhigh, getxattr::<4, 40, 3>(1, true, false, 2, false));
     h!(c01_ans, getxattr::<4, 40, 3>(1, false, false, 0, false));
     h!(c03, getxattr::<4, 40, 3>(3, false, false, 0, false));
@@ -441,10 +439,62 @@ pub mod setxattr_h {
     h!(c01, setxattr::<5, 32>(1, true, false, 0));
     h!(c02, setxattr::<5, 32>(2, true, false, 0));
     h!(c02_l8, setxattr::<8, 32>(2, true, false, 0));
-    h!(c01_lenlow, setxattr::<5, 32>(1, true, false, 1));
     h!(c01_lenhigh, setxattr::<5, 32>(1, true, false, 2));
     h!(c01_ans, setxattr::<5, 32>(1, false, false, 0));
     h!(c03, setxattr::<5, 32>(3, false, false, 0));
     h!(c01_tiny, setxattr::<5, 15>(1, false, false, 0));
     h!(c01_devfail, setxattr::<5, 32>(1, false, true, 0));
+}
+
+
+// ---------------------------------------------------------------- in_header.len below the fixed part
+/// `get_message_body` for ALL header lengths below 40 + the opcode's fixed structure: refused
+/// with InvalidHeaderLength, nothing read, nothing allocated.  (Per-handler instances of this case
+/// ran out of memory: CBMC explores the wrapped-around allocation size; every name-carrying
+/// handler obtains its name through this one function.)
+#[kani::proof]
+#[kani::unwind(4)]
+#[kani::stub(std::fmt::format, empty_string)]
+pub fn c01_get_message_body_underflow() {
+    let len: u32 = kani::any();
+    let sub: usize = kani::any();
+    kani::assume(sub <= 4096);
+    kani::assume((len as usize) < 40 + sub);
+    let mut buf = [0u8; 8];
+    let mut r = Reader::<()>::from_fuse_buffer(FuseBuf::new(&mut buf)).unwrap();
+    let mut hdr = any_hdr(1);
+    hdr.len = len;
+    let res = ServerUtil::get_message_body(&mut r, &hdr, sub);
+    assert!(matches!(res, Err(crate::Error::InvalidHeaderLength)), "[C01] a header length below the fixed part of the request is refused");
+    assert!(r.available_bytes() == 8, "[C01] nothing is consumed from the request on a length lie");
+    kani::cover!(len == 0, "zero length");
+    kani::cover!(len as usize == 40 + sub - 1 && sub > 0, "one below");
+    std::mem::forget(res);
+}
+
+/// and for lengths that are consistent: exactly len - 40 - sub bytes are taken, in order
+#[kani::proof]
+#[kani::unwind(12)]
+#[kani::stub(std::fmt::format, empty_string)]
+pub fn c01_get_message_body_exact() {
+    let extra: usize = kani::any();
+    kani::assume(extra <= 8);
+    let sub: usize = kani::any();
+    kani::assume(sub <= 64);
+    let mut buf: [u8; 8] = kani::any();
+    let snap = buf;
+    let mut r = Reader::<()>::from_fuse_buffer(FuseBuf::new(&mut buf)).unwrap();
+    let mut hdr = any_hdr(1);
+    hdr.len = (40 + sub + extra) as u32;
+    let res = ServerUtil::get_message_body(&mut r, &hdr, sub).unwrap();
+    assert!(res.len() == extra && r.available_bytes() == 8 - extra, "[C01] exactly the announced number of bytes is taken");
+    let mut i = 0;
+    while i < 8 {
+        if i < extra {
+            assert!(res[i] == snap[i], "[C01] body bytes in order");
+        }
+        i += 1;
+    }
+    kani::cover!(extra == 8, "whole buffer");
+    std::mem::forget(res);
 }
